@@ -35,30 +35,29 @@ theorem HV.len {h : Bool} {segs : List Seg} {as : List EncNum} (hv : HV h segs a
 theorem HV.len_ne_one {h : Bool} {segs : List Seg} {as : List EncNum} (hv : HV h segs as) : as.length ≠ 1 := by
   cases hv <;> simp
 
-theorem extra_zero (l : List Int) (h : l.length ≠ 1) :
-    (match l with
-      | [e] => e
-      | _ => 0) = 0 := by
-  match l, h with
-  | [], _ => rfl
-  | [e], h => simp at h
-  | _ :: _ :: _, _ => rfl
+theorem hvLoop_step (q : Quirks) (h : Bool) (s : St) (a b c d : Int) (t : List Int) (ht : t.length ≠ 1) :
+    hvLoop q h s (a :: b :: c :: d :: t) =
+      hvLoop q (!h) (if h then rCurveTo q s a 0 b c 0 d else rCurveTo q s 0 a b c d 0) t := by
+  match t, ht with
+  | [], _ => simp [hvLoop]
+  | [e], ht => simp at ht
+  | x :: y :: r, _ => simp [hvLoop]
 
 theorem hvLoop_rel (q : Quirks) (s : St) (h : Bool) (segs : List Seg) (as : List EncNum) (hv : HV h segs as) :
     hvLoop q h s (vals as) = drawSegs q s segs := by
   induction hv generalizing s with
   | nil h => simp [vals, hvLoop, drawSegs]
   | hor a0 a1 a2 a3 a4 a5 t as h1 h4 htl ih =>
-    have he := extra_zero (vals as) (by rw [vals_length]; exact htl.len_ne_one)
-    simp only [vals] at he
-    simp only [vals, List.map_cons, hvLoop, if_true, drawSegs_cons, drawSeg, h1, h4]
-    rw [he]
+    have hs := hvLoop_step q true s a0.val a2.val a3.val a5.val (vals as) (by rw [vals_length]; exact htl.len_ne_one)
+    simp only [vals, List.map_cons] at hs ⊢
+    rw [hs]
+    simp only [if_true, drawSegs_cons, drawSeg, h1, h4]
     exact ih _
   | ver a0 a1 a2 a3 a4 a5 t as h0 h5 htl ih =>
-    have he := extra_zero (vals as) (by rw [vals_length]; exact htl.len_ne_one)
-    simp only [vals] at he
-    simp only [vals, List.map_cons, hvLoop, Bool.false_eq_true, if_false, drawSegs_cons, drawSeg, h0, h5]
-    rw [he]
+    have hs := hvLoop_step q false s a1.val a2.val a3.val a4.val (vals as) (by rw [vals_length]; exact htl.len_ne_one)
+    simp only [vals, List.map_cons] at hs ⊢
+    rw [hs]
+    simp only [Bool.false_eq_true, if_false, drawSegs_cons, drawSeg, h0, h5]
     exact ih _
   | horLast a0 a1 a2 a3 a4 a5 h1 =>
     simp [vals, hvLoop, drawSegs, drawSeg, h1]
@@ -118,5 +117,180 @@ theorem sound_hv (frm : Nat) (cmds : List Seg) (h : Bool) (n : Nat) (args : List
       rw [pathOp_ok s code _ _ _ (by omega) (by simp; omega), hs, hvLoop_rel _ _ _ _ _ hr, e]
     · simp only [if_true, T2.exec]
       rw [pathOp_ok s code _ _ _ (by omega) (by simp; omega), hs, hvLoop_rel _ _ _ _ _ hr, e]
+
+
+/-! ### the proposing loop -/
+
+/-- a chain of curves whose end tangents are all perpendicular to their start tangents -/
+inductive HVA : Bool → List Seg → List EncNum → Prop
+  | nil (h : Bool) : HVA h [] []
+  | hor (a0 a1 a2 a3 a4 a5 : EncNum) (t : List Seg) (as : List EncNum) : a1.val = 0 → a4.val = 0 →
+      HVA false t as → HVA true (.curve a0 a1 a2 a3 a4 a5 :: t) (a0 :: a2 :: a3 :: a5 :: as)
+  | ver (a0 a1 a2 a3 a4 a5 : EncNum) (t : List Seg) (as : List EncNum) : a0.val = 0 → a5.val = 0 →
+      HVA true t as → HVA false (.curve a0 a1 a2 a3 a4 a5 :: t) (a1 :: a2 :: a3 :: a4 :: as)
+
+/-- start direction of the curve after `n` alternations -/
+def dirAfter (h : Bool) (n : Nat) : Bool := if n % 2 = 0 then h else !h
+
+theorem dirAfter_zero (h : Bool) : dirAfter h 0 = h := rfl
+theorem dirAfter_succ (h : Bool) (n : Nat) : dirAfter h (n + 1) = dirAfter (!h) n := by
+  unfold dirAfter
+  rcases Nat.mod_two_eq_zero_or_one n with h0 | h1
+  · have : (n + 1) % 2 = 1 := by omega
+    simp [h0, this]
+  · have : (n + 1) % 2 = 0 := by omega
+    simp [h1, this]
+theorem dirAfter_succ' (h : Bool) (n : Nat) : dirAfter h (n + 1) = !(dirAfter h n) := by
+  unfold dirAfter
+  rcases Nat.mod_two_eq_zero_or_one n with h0 | h1
+  · have : (n + 1) % 2 = 1 := by omega
+    simp [h0, this]
+  · have : (n + 1) % 2 = 0 := by omega
+    simp [h1, this]
+
+theorem HVA.append_HV {h : Bool} {pre : List Seg} {code : List EncNum} (ha : HVA h pre code)
+    {tl : List Seg} {tas : List EncNum} (hv : HV (dirAfter h pre.length) tl tas) :
+    HV h (pre ++ tl) (code ++ tas) := by
+  induction ha with
+  | nil h => simpa [dirAfter_zero] using hv
+  | hor a0 a1 a2 a3 a4 a5 t as h1 h4 _ ih =>
+    simp only [List.length_cons, dirAfter_succ, Bool.not_true] at hv
+    exact HV.hor _ _ _ _ _ _ _ _ h1 h4 (ih hv)
+  | ver a0 a1 a2 a3 a4 a5 t as h0 h5 _ ih =>
+    simp only [List.length_cons, dirAfter_succ, Bool.not_false] at hv
+    exact HV.ver _ _ _ _ _ _ _ _ h0 h5 (ih hv)
+
+theorem HVA.append {h : Bool} {pre : List Seg} {code : List EncNum} (ha : HVA h pre code)
+    {tl : List Seg} {tas : List EncNum} (hv : HVA (dirAfter h pre.length) tl tas) :
+    HVA h (pre ++ tl) (code ++ tas) := by
+  induction ha with
+  | nil h => simpa [dirAfter_zero] using hv
+  | hor a0 a1 a2 a3 a4 a5 t as h1 h4 _ ih =>
+    simp only [List.length_cons, dirAfter_succ, Bool.not_true] at hv
+    exact HVA.hor _ _ _ _ _ _ _ _ h1 h4 (ih hv)
+  | ver a0 a1 a2 a3 a4 a5 t as h0 h5 _ ih =>
+    simp only [List.length_cons, dirAfter_succ, Bool.not_false] at hv
+    exact HVA.ver _ _ _ _ _ _ _ _ h0 h5 (ih hv)
+
+theorem HVA.toHV {h : Bool} {l : List Seg} {as : List EncNum} (ha : HVA h l as) : HV h l as := by
+  have := ha.append_HV (tl := []) (tas := []) (HV.nil _)
+  simpa using this
+
+theorem HVA.len {h : Bool} {l : List Seg} {as : List EncNum} (ha : HVA h l as) : as.length = 4 * l.length := by
+  induction ha <;> simp [*] <;> omega
+
+theorem hv_single_aligned (offs : Nat) (hoffs : offs = 0 ∨ offs = 1) (a0 a1 a2 a3 a4 a5 : EncNum)
+    (hz : ((Seg.curve a0 a1 a2 a3 a4 a5).arg (1 - offs)).isZero = true)
+    (hal : ((Seg.curve a0 a1 a2 a3 a4 a5).arg (4 + offs)).isZero = true) :
+    HVA (offs == 0) [.curve a0 a1 a2 a3 a4 a5]
+      [(Seg.curve a0 a1 a2 a3 a4 a5).arg offs, a2, a3, (Seg.curve a0 a1 a2 a3 a4 a5).arg (5 - offs)] := by
+  rcases hoffs with rfl | rfl
+  · simp only [Seg.arg, Seg.args, List.getD_cons_succ, List.getD_cons_zero] at hz hal ⊢
+    exact HVA.hor _ _ _ _ _ _ _ _ (isZero_val hz) (isZero_val hal) (HVA.nil _)
+  · simp only [Seg.arg, Seg.args, List.getD_cons_succ, List.getD_cons_zero] at hz hal ⊢
+    exact HVA.ver _ _ _ _ _ _ _ _ (isZero_val hz) (isZero_val hal) (HVA.nil _)
+
+theorem hv_single_last (offs : Nat) (hoffs : offs = 0 ∨ offs = 1) (a0 a1 a2 a3 a4 a5 : EncNum)
+    (hz : ((Seg.curve a0 a1 a2 a3 a4 a5).arg (1 - offs)).isZero = true) :
+    HV (offs == 0) [.curve a0 a1 a2 a3 a4 a5]
+      ([(Seg.curve a0 a1 a2 a3 a4 a5).arg offs, a2, a3, (Seg.curve a0 a1 a2 a3 a4 a5).arg (5 - offs)] ++
+        [(Seg.curve a0 a1 a2 a3 a4 a5).arg (4 + offs)]) := by
+  rcases hoffs with rfl | rfl
+  · simp only [Seg.arg, Seg.args, List.getD_cons_succ, List.getD_cons_zero] at hz ⊢
+    exact HV.horLast _ _ _ _ _ _ (isZero_val hz)
+  · simp only [Seg.arg, Seg.args, List.getD_cons_succ, List.getD_cons_zero] at hz ⊢
+    exact HV.verLast _ _ _ _ _ _ (isZero_val hz)
+
+theorem hvEdges_spec (frm orig : Nat) (op : Op) (rest pre : List Seg) (code : List EncNum) (offs : Nat)
+    (hA : HVA (orig == 0) pre code) (hdir : (offs == 0) = dirAfter (orig == 0) pre.length)
+    (hoffs : offs = 0 ∨ offs = 1) (horig : orig = 0 ∨ orig = 1) :
+    ∀ e ∈ hvvhEdges frm orig op offs rest code pre.length,
+      ∃ n, 0 < n ∧ n ≤ (pre ++ rest).length ∧ e = ⟨e.args, op, frm + n⟩ ∧
+        HV (orig == 0) ((pre ++ rest).take n) e.args ∧ e.args.length ≤ 48 := by
+  induction rest generalizing pre code offs with
+  | nil => simp [hvvhEdges]
+  | cons g t ih =>
+    cases g with
+    | line dx dy => simp [hvvhEdges]
+    | curve a0 a1 a2 a3 a4 a5 =>
+      have hc : pre ++ Seg.curve a0 a1 a2 a3 a4 a5 :: t = (pre ++ [Seg.curve a0 a1 a2 a3 a4 a5]) ++ t := by simp
+      have hpos : pre.length + 1 = (pre ++ [Seg.curve a0 a1 a2 a3 a4 a5]).length := by simp
+      have hoffs' : 1 - offs = 0 ∨ 1 - offs = 1 := by omega
+      have hdir' : ((1 - offs) == 0) = dirAfter (orig == 0) (pre ++ [Seg.curve a0 a1 a2 a3 a4 a5]).length := by
+        rw [← hpos, dirAfter_succ', ← hdir]
+        rcases hoffs with rfl | rfl <;> rfl
+      simp only [hvvhEdges]
+      by_cases hz : (!((Seg.curve a0 a1 a2 a3 a4 a5).arg (1 - offs)).isZero) = true
+      · simp [hz]
+      · have hz' : ((Seg.curve a0 a1 a2 a3 a4 a5).arg (1 - offs)).isZero = true := by simpa using hz
+        simp only [hz, if_false]
+        by_cases h2 : (offs != orig && !((Seg.curve a0 a1 a2 a3 a4 a5).arg (4 + offs)).isZero) = true
+        · simp [h2]
+        · simp only [h2, if_false]
+          by_cases h3 : (decide (code.length + 4 > maxStack) ||
+              !((Seg.curve a0 a1 a2 a3 a4 a5).arg (4 + offs)).isZero && decide (code.length + 5 > maxStack)) = true
+          · simp [h3]
+          · simp only [h3, if_false]
+            rw [maxStack_48] at h3
+            -- the two shapes of the operand list
+            by_cases hal : ((Seg.curve a0 a1 a2 a3 a4 a5).arg (4 + offs)).isZero = true
+            · have hrel : HVA (orig == 0) (pre ++ [Seg.curve a0 a1 a2 a3 a4 a5])
+                  (code ++ [(Seg.curve a0 a1 a2 a3 a4 a5).arg offs, a2, a3, (Seg.curve a0 a1 a2 a3 a4 a5).arg (5 - offs)]) :=
+                hA.append (by rw [← hdir]; exact hv_single_aligned offs hoffs _ _ _ _ _ _ hz' hal)
+              have hlen : (code ++ [(Seg.curve a0 a1 a2 a3 a4 a5).arg offs, a2, a3, (Seg.curve a0 a1 a2 a3 a4 a5).arg (5 - offs)]).length ≤ 48 := by
+                simp at h3 ⊢; omega
+              simp only [hal, if_true, List.append_nil]
+              have hrec := fun e he => ih (pre ++ [Seg.curve a0 a1 a2 a3 a4 a5]) _ (1 - offs) hrel hdir' hoffs' e (by rw [← hpos]; exact he)
+              by_cases hq : ((1 - offs) == orig) = true
+              · simp only [hq, if_true]
+                intro e he
+                obtain ⟨n, k1, k2, k3, k4, k5⟩ := hrec e he
+                exact ⟨n, k1, by rw [hc]; exact k2, k3, by rw [hc]; exact k4, k5⟩
+              · simp only [hq, if_false]
+                intro e he
+                rcases List.mem_cons.mp he with rfl | h
+                · refine ⟨pre.length + 1, by omega, by simp, rfl, ?_, hlen⟩
+                  simp only
+                  rw [hc, hpos, take_append_len]
+                  exact hrel.toHV
+                · obtain ⟨n, k1, k2, k3, k4, k5⟩ := hrec e h
+                  exact ⟨n, k1, by rw [hc]; exact k2, k3, by rw [hc]; exact k4, k5⟩
+            · have hal' : ((Seg.curve a0 a1 a2 a3 a4 a5).arg (4 + offs)).isZero = false := by simpa using hal
+              have hrel : HV (orig == 0) (pre ++ [Seg.curve a0 a1 a2 a3 a4 a5])
+                  (code ++ ([(Seg.curve a0 a1 a2 a3 a4 a5).arg offs, a2, a3, (Seg.curve a0 a1 a2 a3 a4 a5).arg (5 - offs)] ++
+                    [(Seg.curve a0 a1 a2 a3 a4 a5).arg (4 + offs)])) :=
+                hA.append_HV (by rw [← hdir]; exact hv_single_last offs hoffs _ _ _ _ _ _ hz')
+              -- not aligned: offs = orig (else pruned), so an edge is proposed and the loop stops
+              have hoo : offs = orig := by
+                simp only [hal', Bool.not_false, Bool.and_true, bne_iff_ne, ne_eq, Decidable.not_not] at h2
+                exact h2
+              have hne : ((1 - offs) == orig) = false := by
+                rw [hoo]; rcases horig with rfl | rfl <;> rfl
+              simp only [hal', Bool.false_eq_true, if_false, hne]
+              intro e he
+              simp only [List.mem_cons, List.not_mem_nil, or_false] at he
+              subst he
+              refine ⟨pre.length + 1, by omega, by simp, rfl, ?_, ?_⟩
+              · simp only
+                rw [hc, hpos, take_append_len]
+                simpa [List.append_assoc] using hrel
+              · simp [hal'] at h3 ⊢; omega
+
+/-- every hvcurveto and vhcurveto edge proposed by `appendEdges` is sound -/
+theorem hvEdges_sound (frm : Nat) (cmds : List Seg) :
+    ∀ e ∈ hvvhEdges frm 0 .hvcurveto 0 cmds [] 0, EdgeSound frm cmds e := by
+  intro e he
+  obtain ⟨n, h1, h2, h3, h4, h5⟩ := hvEdges_spec frm 0 .hvcurveto cmds [] [] 0 (HVA.nil _) rfl (Or.inl rfl) (Or.inl rfl) e he
+  rw [h3]
+  have := sound_hv frm cmds true n e.args h1 (by simpa using h2) (by simpa using h4) h5
+  simpa using this
+
+theorem vhEdges_sound (frm : Nat) (cmds : List Seg) :
+    ∀ e ∈ hvvhEdges frm 1 .vhcurveto 1 cmds [] 0, EdgeSound frm cmds e := by
+  intro e he
+  obtain ⟨n, h1, h2, h3, h4, h5⟩ := hvEdges_spec frm 1 .vhcurveto cmds [] [] 1 (HVA.nil _) rfl (Or.inr rfl) (Or.inr rfl) e he
+  rw [h3]
+  have := sound_hv frm cmds false n e.args h1 (by simpa using h2) (by simpa using h4) h5
+  simpa using this
 
 end SfntV.T2Enc
